@@ -486,6 +486,97 @@ func cacheReadBuffer(seed uint64) (violation string, reads int64) {
 	return "", rd.Load()
 }
 
+// cacheHeldIter: an iterator value obtained from the cache judges removal and expiry when it is ranged
+// over, not when it was obtained: values obtained before the clock passed the deadlines (and before some
+// keys were invalidated or rewritten) are ranged over afterwards, twice.
+func cacheHeldIter(seed uint64) (violation string, yields int64) {
+	r := core.NewRng(seed)
+	clk := &phaseClock{tick: make(chan time.Time)}
+	clk.now.Store(1_000_000_000)
+	ttl := time.Duration(1+r.Intn(100)) * time.Second
+	o := &otter.Options[int, int]{Clock: clk, ExpiryCalculator: otter.ExpiryWriting[int, int](ttl), Executor: func(fn func()) { fn() }}
+	bounded := r.Chance(1, 2)
+	if bounded {
+		o.MaximumSize = 1000
+	}
+	c, err := otter.New(o)
+	if err != nil {
+		return "cannot build: " + err.Error(), 0
+	}
+	defer c.StopAllGoroutines()
+	n := 5 + r.Intn(60)
+	for k := 0; k < n; k++ {
+		c.Set(k, k)
+	}
+	all, keys, vals := c.All(), c.Keys(), c.Values()
+	hot, cold := c.Hottest(), c.Coldest()
+	// some keys are removed, the clock passes the deadline of the others, a few are written afresh
+	gone := map[int]bool{}
+	for k := 0; k < n; k++ {
+		if r.Chance(1, 4) {
+			c.Invalidate(k)
+			gone[k] = true
+		}
+	}
+	clk.now.Add(int64(ttl) + int64(r.Intn(3)))
+	fresh := map[int]int{}
+	for i := 0; i < r.Intn(6); i++ {
+		k := r.Intn(n)
+		fresh[k] = 1000 + i
+		c.Set(k, 1000+i)
+	}
+	check := func(what string, got map[int]int, byValue bool) string {
+		for k, v := range got {
+			if fv, ok := fresh[k]; !ok || (byValue && fv != v) {
+				return fmt.Sprintf("%s, obtained before the clock passed the deadlines and ranged over afterwards, yielded key %d (value %d), which had expired or been invalidated before the traversal began (written afresh since: %v)", what, k, v, fresh)
+			}
+		}
+		if len(got) != len(fresh) {
+			return fmt.Sprintf("%s yielded %d entries, %d keys were written afresh before the traversal began and must be present", what, len(got), len(fresh))
+		}
+		return ""
+	}
+	for pass := 0; pass < 2; pass++ {
+		got := map[int]int{}
+		for k, v := range all {
+			got[k] = v
+			yields++
+		}
+		if v := check("All()", got, true); v != "" {
+			return v, yields
+		}
+		got = map[int]int{}
+		for k := range keys {
+			got[k] = fresh[k]
+			yields++
+		}
+		if v := check("Keys()", got, false); v != "" {
+			return v, yields
+		}
+		cnt := 0
+		for range vals {
+			cnt++
+			yields++
+		}
+		if cnt != len(fresh) {
+			return fmt.Sprintf("Values(), obtained before the clock passed the deadlines, yielded %d values afterwards; %d keys were written afresh", cnt, len(fresh)), yields
+		}
+		if bounded {
+			for name, it := range map[string]func(func(otter.Entry[int, int]) bool){"Hottest()": hot, "Coldest()": cold} {
+				got = map[int]int{}
+				for e := range it {
+					got[e.Key] = e.Value
+					yields++
+				}
+				if v := check(name, got, true); v != "" {
+					return v, yields
+				}
+			}
+		}
+	}
+	return "", yields
+}
+
 // cacheIter is the cache-level half of C15: All / Keys / Values of a real cache iterate while
 // writers replace and invalidate hot keys and churn grows and shrinks the table. A stable key set
 // (never touched) must be yielded exactly once by every iteration; no key twice; a yielded
@@ -689,6 +780,11 @@ func RunC15(col *core.Collector, tier, variant string, seed uint64, shard, nshar
 		if v == "" && i%10 == 0 {
 			v = clearCheck(cfg.Seed)
 			col.Count("clear_checks", 1)
+		}
+		if v == "" {
+			var ys int64
+			v, ys = cacheHeldIter(cfg.Seed ^ 0x55)
+			col.Count("cache_level.held_iterator_yields", ys)
 		}
 		if v == "" && i%8 == 3 {
 			var n int64
